@@ -287,7 +287,7 @@ func GenPair(seed uint64, o GenOpts) *Pair {
 	if o.PathFocus {
 		relW = []string{"unchanged", "renamed", "renamed", "dup", "dup", "dupdrop", "edit", "patched+renamesrc", "grow", "shrink", "empty", "deleted", "swap", "chain", "dupclobber", "dupclobber"}
 	} else {
-		relW = append(relW, "dupdrop", "patched+renamesrc", "swap", "chain", "concat", "dupclobber")
+		relW = append(relW, "dupdrop", "patched+renamesrc", "swap", "chain", "concat", "dupclobber", "splice", "splice")
 	}
 	place := func(path string, data []byte) bool {
 		if !p.New.CanPlace(path) {
@@ -450,6 +450,29 @@ func GenPair(seed uint64, o GenOpts) *Pair {
 			place(olds[j].path, f.data)
 			place(g.newName(p.New, p.Old), olds[j].data)
 			p.feat("chain")
+		case "splice":
+			// blocks 0..i of one old file followed by blocks i+1.. of ANOTHER old file: consecutive block
+			// indices across two different files
+			j := r.Intn(len(olds))
+			a, b := f.data, olds[j].data
+			na, nb := len(a)/BS, len(b)/BS
+			if j == i || na < 1 || nb < 2 {
+				place(f.path, f.data)
+				break
+			}
+			k := na
+			if nb-1 < k {
+				k = nb - 1
+			}
+			k = r.Range(1, k)
+			nd := append(append([]byte(nil), a[:k*BS]...), b[k*BS:]...)
+			np := f.path
+			if r.Bool() {
+				np = g.newName(p.New, p.Old)
+			}
+			if place(np, nd) {
+				p.feat("splice-consecutive-blocks-of-two-files")
+			}
 		case "concat":
 			j := r.Intn(len(olds))
 			a, b := f.data, olds[j].data
